@@ -467,6 +467,20 @@ pub fn run(tier: Tier) -> i32 {
             streams.push((format!("arbitrary headers x{n}, every third packet of system id 36"), stream::to_bytes(&pk)));
         }
     }
+    // one FEE id shared by four links (link and FEE are not 1:1): under a link filter the reader skips runs of four
+    // packets that differ in their link only - every link and FEE seen must still be counted (wave 25)
+    {
+        let mut pk: Vec<_> = (0..60usize)
+            .map(|i| {
+                let l = (i % 5) as u8;
+                gen::recognisable_framed(l, if l == 0 { gen::fee_of_link(0) } else { gen::fee_of_link(1) }, [0usize, 32, 160][i % 3], 13_000_000 + i as u64)
+            })
+            .collect();
+        for p in pk.iter_mut() {
+            p.rdh.stop_bit &= 1;
+        }
+        streams.push(("one FEE id shared by four links, runs of four skipped packets".into(), stream::to_bytes(&pk)));
+    }
     for (name, bytes) in &streams {
         let (walked, _) = stream::walk(bytes);
         let l0 = walked[0].rdh.link_id;
